@@ -16,6 +16,7 @@ import (
 	"encoding/json"
 	"fmt"
 	"io"
+	"mime/multipart"
 	"net"
 	"net/http"
 	"os"
@@ -102,7 +103,8 @@ func c20MixedSpellings(spell, name string) []string {
 
 var c20APIs = []string{"Client.DoRedirects", "HostClient.DoRedirects", "Client.Get", "Client.GetTimeout", "Client.GetDeadline", "Client.Post", "HostClient.Get", "HostClient.Post"}
 
-var c20Inits = []string{"POST-body", "GET", "HEAD", "PUT-body", "POST-chunked-trailer"}
+var c20Inits = []string{"POST-body", "GET", "HEAD", "PUT-body", "POST-chunked-trailer",
+	"POST-postargs", "POST-body-postargs-peeked", "POST-multipart-parsed", "POST-stream-sized"}
 
 var c20Statuses = []int{302, 301, 303, 307, 308}
 
@@ -515,6 +517,33 @@ func c20Exec(cs *c20Case) (n *c20Net, err error, maxAllowed int, bad string) {
 			req.Header.SetMethod(MethodPut)
 			req.Header.SetContentType("text/plain")
 			req.SetBodyString(c20Body)
+		case "POST-postargs":
+			// the form lives only in req.PostArgs(); Request.Write takes the body from postArgs.QueryString()
+			req.Header.SetMethod(MethodPost)
+			req.Header.SetContentType("application/x-www-form-urlencoded")
+			req.PostArgs().Set("k", "v")
+			req.PostArgs().Set("payload", "POSTBODY")
+		case "POST-body-postargs-peeked":
+			req.Header.SetMethod(MethodPost)
+			req.Header.SetContentType("application/x-www-form-urlencoded")
+			req.SetBodyString(c20Body)
+			req.PostArgs().Peek("payload") // peeking parses the body into postArgs (not with special headers disabled)
+		case "POST-multipart-parsed":
+			var mb bytes.Buffer
+			mw := multipart.NewWriter(&mb)
+			mw.SetBoundary("c20boundary") //nolint:errcheck
+			mw.WriteField("payload", "POSTBODY") //nolint:errcheck
+			mw.Close()
+			req.Header.SetMethod(MethodPost)
+			req.Header.SetMultipartFormBoundary("c20boundary")
+			req.SetBody(mb.Bytes())
+			// parse it so that req.multipartForm is populated; with special headers disabled the boundary is not
+			// found and the body simply stays raw
+			req.MultipartForm() //nolint:errcheck
+		case "POST-stream-sized":
+			req.Header.SetMethod(MethodPost)
+			req.Header.SetContentType("text/plain")
+			req.SetBodyStream(strings.NewReader(c20Body), len(c20Body))
 		case "POST-chunked-trailer":
 			req.Header.SetMethod(MethodPost)
 			req.Header.SetContentType("text/plain")
@@ -701,7 +730,7 @@ func c20Run(r *vrt.R, cs *c20Case, ct *c20Counters) {
 	}
 
 	// (3) method / body rewriting
-	bufferedBody := cs.Init != "POST-chunked-trailer" || !strings.HasSuffix(cs.API, "DoRedirects")
+	bufferedBody := (cs.Init != "POST-chunked-trailer" && cs.Init != "POST-stream-sized") || !strings.HasSuffix(cs.API, "DoRedirects")
 	for i := 1; i < len(reqs); i++ {
 		p, q := reqs[i-1], reqs[i]
 		switch p.RespStatus {
@@ -879,6 +908,23 @@ func c20Spaces(r *vrt.R) []c20Space {
 				cs = c20Case{API: c20APIs[2+x[0]], Init: "GET", URL: c20URLs[x[1]].Name, Spell: "canonical", Hops: append(cs.Hops[:0], c20Hop{c20Statuses[x[2]], c20Locs[x[3]].Loc})}
 				if x[4] == 1 {
 					cs.Hops = append(cs.Hops, c20Hop{302, "http://trusted.com/back"})
+				}
+				return yield(&cs)
+			})
+		}})
+
+	// E: every way to carry a request body x status per hop.
+	sp = append(sp, c20Space{"E: every initial request kind (body in SetBody, PostArgs, PostArgs peeked, parsed multipart form, sized stream, chunked stream+trailer) x apis {Client,HostClient}.DoRedirects x status per hop x {other host, same host, back to initial} for 1 and 2 hops",
+		func(yield func(*c20Case) bool) {
+			var cs c20Case
+			locs := []string{"http://evil.com/p", "/p2", "http://trusted.com/back"}
+			seqx.Product([]int{2, len(c20Inits), len(c20Statuses), len(locs), len(c20Statuses) + 1, len(locs)}, -1, func(x []int) bool {
+				if x[4] == 0 && x[5] != 0 {
+					return true
+				}
+				cs = c20Case{API: c20APIs[x[0]], Max: 3, Init: c20Inits[x[1]], URL: "plain", Spell: "canonical", Hops: append(cs.Hops[:0], c20Hop{c20Statuses[x[2]], locs[x[3]]})}
+				if x[4] > 0 {
+					cs.Hops = append(cs.Hops, c20Hop{c20Statuses[x[4]-1], locs[x[5]]})
 				}
 				return yield(&cs)
 			})
